@@ -3,7 +3,7 @@
     kernels breaks exactly these obligations. *)
 From Coq Require Import Ascii String List Bool ZArith QArith.
 From PTBase Require Import Exn PyStr.
-From P Require Import FromGeo Arith Kx KernelTie.
+From P Require Import FromGeo Arith Kx KernelTie LoopTie.
 From Gen Require Import GenKernels.
 Import ListNotations.
 Open Scope Q_scope.
@@ -104,3 +104,66 @@ Theorem kernel_underground_block : forall g bm n l c,
 Proof. exact tie_underground_block. Qed.
 Print Assumptions kernel_underground_block.
 
+
+(** geometry.polygon_area / polygon_centroid: one pass of the loop, the final expression, the text around *)
+Theorem kernel_polygon_area : forall a c p1 p2 shift,
+  run (w_poly a c p1 p2 shift) gen_polygon_area_step = ORet (VL [VQ (area_step a p1 p2)]) /\
+  run (w_poly a c p1 p2 shift) gen_polygon_area_final = ORet (VQ (qmul (1 # 2) a)) /\
+  gen_polygon_area_glue =
+    ["def polygon_area(polygon):"; "    area = 0.0"; "    n = len(polygon)"; "    if n > 0:";
+     "        polygon -= polygon[0]"; "        for j, p1 in enumerate(polygon):"; "            pass";
+     "    return 0.5 * area"]%string.
+Proof. exact tie_polygon_area. Qed.
+Print Assumptions kernel_polygon_area.
+
+Theorem kernel_polygon_centroid : forall a c p1 p2 shift,
+  run (w_poly a c p1 p2 shift) gen_polygon_centroid_step =
+    ORet (let r := cen_step (a, c) p1 p2 in VL [VQ (fst r); vpt (snd r)]) /\
+  run (w_poly a c p1 p2 shift) gen_polygon_centroid_final = ORet (vpt (cen_final (a, c) shift)) /\
+  gen_polygon_centroid_glue =
+    ["def polygon_centroid(polygon):"; "    c, area = (np.zeros(2), 0.0)"; "    n = len(polygon)";
+     "    shift = polygon[0]"; "    polygon -= shift"; "    if n < 3:"; "        return sum(polygon) / n + shift";
+     "    else:"; "        for j, p1 in enumerate(polygon):"; "            pass"; "        area *= 0.5";
+     "        return c / (6.0 * area) + shift"]%string.
+Proof. exact tie_polygon_centroid. Qed.
+Print Assumptions kernel_polygon_centroid.
+
+(** the loop structure: which list is iterated, the order of the steps, what is appended *)
+Theorem loop_underground_blocks_over_name_list : forall names n,
+  ev [("geo.block_name_list"%string, VL (map VS names)); ("geo.num_atmosphere_blocks"%string, VN n)] gen_iter_underground_blocks
+  = VL (map VS (skipn n names)).
+Proof. exact tie_iter_underground_blocks. Qed.
+Print Assumptions loop_underground_blocks_over_name_list.
+
+Theorem loops_over_rock_layers : forall ls : list layer,
+  ev [("geo.layerlist"%string, VL (map (fun l => VS (lname l)) ls))] gen_iter_add_connections = VL (map (fun l => VS (lname l)) (tl ls)) /\
+  ev [("self.layerlist"%string, VL (map (fun l => VS (lname l)) ls))] gen_iter_name_list_layers = VL (map (fun l => VS (lname l)) (tl ls)) /\
+  gen_iter_connection_names_layers = KAtom "enumerate(self.layerlist[1:])".
+Proof. exact tie_iter_layers. Qed.
+Print Assumptions loops_over_rock_layers.
+
+Theorem loops_over_columns_and_connections :
+  gen_iter_atmosphere_blocks = KAtom "geo.columnlist" /\ gen_iter_vertical = KAtom "layercols" /\
+  gen_iter_horizontal = KAtom "[con for con in geo.connectionlist if set(con.column).issubset(layercolset)]".
+Proof. exact tie_iter_columns. Qed.
+Print Assumptions loops_over_columns_and_connections.
+
+Theorem loop_structure_text :
+  gen_glue_add_atmosphereblocks = exp_glue_add_atmosphereblocks /\
+  gen_glue_add_blocks = exp_glue_add_blocks /\
+  gen_glue_add_connections = exp_glue_add_connections /\
+  gen_glue_add_horizontal_layer_connections = exp_glue_add_horizontal_layer_connections /\
+  gen_glue_add_underground_blocks = exp_glue_add_underground_blocks /\
+  gen_glue_add_vertical_layer_connections = exp_glue_add_vertical_layer_connections /\
+  gen_glue_block_name_list_dmplex = exp_glue_block_name_list_dmplex /\
+  gen_glue_block_name_list_layer_column = exp_glue_block_name_list_layer_column /\
+  gen_glue_get_tilt_vector = exp_glue_get_tilt_vector /\
+  gen_glue_set_atmosphere_type = exp_glue_set_atmosphere_type /\
+  gen_glue_set_convention = exp_glue_set_convention /\
+  gen_glue_set_block_order = exp_glue_set_block_order /\
+  gen_glue_copy_layers_from = exp_glue_copy_layers_from /\
+  gen_glue_fromgeo = exp_glue_fromgeo /\
+  gen_glue_setup_block_connection_name_index = exp_glue_setup_block_connection_name_index /\
+  gen_glue_setup_block_name_index = exp_glue_setup_block_name_index.
+Proof. exact tie_glue. Qed.
+Print Assumptions loop_structure_text.
